@@ -233,7 +233,8 @@ def cpp_callback(g, prog, uid, t, invocations):
     function object Rust owns is destroyed (exactly once, whether the binding moved or copied it)"""
     ret = "void" if t[2][0] == "unit" else cpp_type(prog, t[2])
     ptypes = [cpp_type(prog, a) for a in t[1]]
-    body = 'int j = d->n++; printf("cbin %s %%d", j);' % uid
+    # `k` is state the function object owns by value: a binding that invokes a copy of the std::function loses it between calls
+    body = 'int j = k++; d->n++; printf("cbin %s %%d", j);' % uid
     h = CppGen(prog)
     for i, a in enumerate(t[1]):
         body += ' printf(" a%d="); %s' % (i, h.show(a, "a%d" % i))
@@ -244,7 +245,7 @@ def cpp_callback(g, prog, uid, t, invocations):
             body += " case %d: return %s;" % (j, h.arg(t[2], inv["ret"]))
         body += " } return %s();" % ret
     assert not h.pre
-    return 'std::function<%s(%s)>([d = std::make_shared<DvDrop>("%s")](%s) mutable -> %s { %s })' % (
+    return 'std::function<%s(%s)>([d = std::make_shared<DvDrop>("%s"), k = 0](%s) mutable -> %s { %s })' % (
         ret, ", ".join(ptypes), uid, ", ".join("%s a%d" % (ty, i) for i, ty in enumerate(ptypes)), ret, body)
 
 
